@@ -384,16 +384,45 @@ func Show(x any) string {
 	return b.String()
 }
 
+// Fixed non-UTC zones and two wall-clock readings taken once per process: MonoBase carries a
+// monotonic reading (time.Now()), MonoStripped is the same instant without it (Round(0)).
+// Model encoding of a time.Time leaf: (op 0) = time.Time{}, (op z) = time.Unix(z,0).UTC(),
+// (op k*10^12+z) = time.Unix(z,0).In(Zone<k>), (op 7*10^12) = MonoBase, (op 7*10^12+1) = MonoStripped.
+var (
+	Zone1        = time.FixedZone("C20A", 5*3600+1800)
+	Zone2        = time.FixedZone("C20B", -8*3600)
+	MonoBase     = time.Now()
+	MonoStripped = MonoBase.Round(0)
+)
+
+const zoneUnit int64 = 1000000000000
+
+func rawTime(t time.Time) (uint64, int64, uintptr) {
+	v := reflect.ValueOf(t)
+	return v.Field(0).Uint(), v.Field(1).Int(), v.Field(2).Pointer()
+}
+
 func showTime(b *strings.Builder, v reflect.Value) {
-	// wall uint64, ext int64, loc *Location; values are time.Time{} or time.Unix(z, 0).UTC()
-	wall, ext := v.Field(0).Uint(), v.Field(1).Int()
+	// wall uint64, ext int64, loc *Location: compared raw, so the zone (pointer) and a monotonic
+	// reading are part of the observable
+	wall, ext, loc := v.Field(0).Uint(), v.Field(1).Int(), v.Field(2).Pointer()
+	mw, me, ml := rawTime(MonoBase)
+	sw, se, sl := rawTime(MonoStripped)
 	switch {
-	case wall == 0 && ext == 0 && v.Field(2).IsNil():
+	case wall == 0 && ext == 0 && loc == 0:
 		b.WriteString("(op 0)")
-	case wall == 0 && v.Field(2).IsNil():
+	case wall == 0 && loc == 0:
 		b.WriteString("(op " + strconv.FormatInt(ext-unixToInternal, 10) + ")")
+	case wall == 0 && loc == reflect.ValueOf(Zone1).Pointer():
+		b.WriteString("(op " + strconv.FormatInt(zoneUnit+ext-unixToInternal, 10) + ")")
+	case wall == 0 && loc == reflect.ValueOf(Zone2).Pointer():
+		b.WriteString("(op " + strconv.FormatInt(2*zoneUnit+ext-unixToInternal, 10) + ")")
+	case wall == mw && ext == me && loc == ml:
+		b.WriteString("(op " + strconv.FormatInt(7*zoneUnit, 10) + ")")
+	case wall == sw && ext == se && loc == sl:
+		b.WriteString("(op " + strconv.FormatInt(7*zoneUnit+1, 10) + ")")
 	default:
-		fmt.Fprintf(b, "(op time:%d:%d)", wall, ext)
+		fmt.Fprintf(b, "(op time:%d:%d:%x)", wall, ext, loc)
 	}
 }
 
